@@ -14,13 +14,15 @@ CSS_ALPHA = {"{", "}", ":", ";", "(", ")", "DQ", "'", "BS", "/", "*", "a", " ", 
 # document fragments for Fragments.tla: tags of ordinary, void and special elements (also stray closing tags), comment / CDATA
 # delimiters, attribute shapes; rule / declaration / comment / string pieces
 FRAG_H = {"<a>", "</a>", "<br>", "</br>", "<p k=l m>", "<img a=b/>", "<!-- ", "-->", "<script>", "</script>", "t ", "<", ">", "<b c=DQd>eDQ>", "</b>",
-          "<![CDATA[", "]]>", "NL", "<script type>", "<style media=", "/>", "<script type=DQ>", "<style title=DQa</style>DQ>", "</style >", "</scriptNL>"}
+          "<![CDATA[", "]]>", "NL", "<script type>", "<style media=", "/>", "<script type=DQ>", "<style title=DQa</style>DQ>", "</style >", "</scriptNL>", "</SCRIPT>"}
 FRAG_S = {"a{", "}", "b:c;", "d:e", "/*", "*/", "DQ", "'", "BS", "CR", "(", ")", ";", "@m (x:y){", " ", "NL"}
 HTML_DOCS = ['<a><b c="d>e"></b></a>', '<p k=l m><br><img a=b></p>', '<a x=\'>\' {y}><!-- <a> --></a>', '<style>a>b{}</style><p t={a>b}/>',
              '<b *ng="v" #ref><![CDATA[<b>]]></b>', '<script>if(a<b)"</p>"</script><?pi <p> ?>',
              '<style>a{}</style><style>b{}</style>', '<script src="a"></script><p>t</p><script>x</script>',
              '<ul><li>one</li><li><a href="#">two</a></li></ul>\n<p><img src="a.png"> text</p>',
-             '<div><p><b>x</b></p></div><br><section><input a=b><em>y</em></section>']
+             '<div><p><b>x</b></p></div><br><section><input a=b><em>y</em></section>',
+             # tags written in mixed letter case: whatever is reported as a closing tag carries the reported name
+             '<p><script>var a;</SCRIPT><i>x</i></p>', '<STYLE>a{}</style><Div><B>t</b></DIV>']
 CSS_DOCS = ['a{color:red;}', 'a:hover{--v : "x;y" ;}', '@media (min-width: 10px){b[x="{"]{$v:url(a:b);}}', 'a::before{margin:1px  solid;/* {;:} */}',
             '.c > d{color:calc(1px + (2px));}\n  a{b:c}', 'a{b:c;d:e}', 'a { /** x } **/ b: c; }', 'a { b { c { d: e; } f: g; } h: i; }',
             'a{m:0;b{c{x:1}y:2}z:3}']
@@ -216,39 +218,60 @@ def run(out):
         work.append(('document-mutations-' + lang, lang, sorted(ms)))
     _model_comparison(out, quick)
     tid = 0
-    alltraces = []
+    SLICE = 12000          # sources recorded and validated at a time: the recorded calls of all 390 000 four-fragment sources at once are 50 GB
+    total = None
+    ntraces = ncalls = 0
     for name, lang, strings in work:
+        if not quick and len(strings) > 150000:
+            # thorough tier: every sequence of up to three fragments, a deterministic sample of those of four
+            short = [x for x in strings if len(x) <= 12]
+            strings = sorted(set(short) | set(common.sample([x for x in strings if len(x) > 12], 100000, out.seed, key=str)))
         items = []
         for s in strings:
             tid += 1
             items.append((tid, s, lang))
-        traces = common.pool_map(_chunk, items, chunk=400)
-        for t in traces:
-            t['lang'] = lang
-        out.parts.append({'instance': name + '-recorded', 'traces': len(traces), 'calls': sum(len(t['calls']) for t in traces)})
-        alltraces.extend(traces)
-        sm = sorted(traces, key=lambda t: zlib.crc32(t['src'].encode()))
-        for t in sm[:1]:
-            out.sample({'source': t['src'], 'calls': [[c['fn'], c['pos'], c['r']] for c in t['calls'][:4]]})
-    # one validation run over all recorded traces (batched by validate_traces)
-    slim = [{'tid': t['tid'], 'src': t['src'], 'calls': [{k: c[k] for k in ('fn', 'pos', 'exc', 'r', 'names', 'kinds', 'dl', 'm')} for c in t['calls']]}
-            for t in alltraces]
-    verdicts, r2 = common.validate_traces('Trace_ScanMonitor', slim, heap='5g', batch_events=110000, parallel=4)
-    ncalls = sum(len(t['calls']) for t in alltraces)
-    out.add_tlc('trace-validation', r2, traces=len(alltraces), calls=ncalls)
-    out.traces += len(alltraces)
+        part = {'instance': name + '-recorded', 'traces': 0, 'calls': 0}
+        out.parts.append(part)
+        first = None
+        for a in range(0, len(items), SLICE):
+            traces = common.pool_map(_chunk, items[a:a + SLICE], chunk=400)
+            part['traces'] += len(traces)
+            part['calls'] += sum(len(t['calls']) for t in traces)
+            for t in traces:
+                t['lang'] = lang
+                if first is None or zlib.crc32(t['src'].encode()) < zlib.crc32(first['src'].encode()):
+                    first = {'src': t['src'], 'calls': t['calls'][:4]}
+            # the recorded traces of the slice are validated (batched by validate_traces) and dropped
+            slim = [{'tid': t['tid'], 'src': t['src'], 'calls': [{k: c[k] for k in ('fn', 'pos', 'exc', 'r', 'names', 'kinds', 'dl', 'm')} for c in t['calls']]}
+                    for t in traces]
+            verdicts, r2 = common.validate_traces('Trace_ScanMonitor', slim, heap='5g', batch_events=110000, parallel=4)
+            del slim
+            if total is None:
+                total = r2
+            else:
+                total.generated += r2.generated
+                total.distinct += r2.distinct
+                total.wall += r2.wall
+                total.depth = max(total.depth, r2.depth)
+            ntraces += len(traces)
+            ncalls += sum(len(t['calls']) for t in traces)
+            by = {t['tid']: t for t in traces}
+            for t in traces:
+                if t['calls'][0]['r']:
+                    out.distinct.add((t['src'], t['lang']))
+            for k, v in verdicts.items():
+                if v[0] == 'REJECT':
+                    t = by[k]
+                    c = t['calls'][v[1] - 1]
+                    out.violation('%s: %s' % (c['fn'], v[2]), {'source': t['src'], 'fn': c['fn'], 'pos': c['pos'], 'ranges': c['r'],
+                                                              'delimiters': c['dl'], 'names': c['names'], 'exception': c.get('exception'),
+                                                              'site': list(c['site']) if c.get('site') else None})
+            del traces, by
+        if first is not None:
+            out.sample({'source': first['src'], 'calls': [[c['fn'], c['pos'], c['r']] for c in first['calls']]})
+    out.add_tlc('trace-validation', total, traces=ntraces, calls=ncalls)
+    out.traces += ntraces
     out.evaluations += ncalls
-    by = {t['tid']: t for t in alltraces}
-    for t in alltraces:
-        if t['calls'][0]['r']:
-            out.distinct.add((t['src'], t['lang']))
-    for k, v in verdicts.items():
-        if v[0] == 'REJECT':
-            t = by[k]
-            c = t['calls'][v[1] - 1]
-            out.violation('%s: %s' % (c['fn'], v[2]), {'source': t['src'], 'fn': c['fn'], 'pos': c['pos'], 'ranges': c['r'],
-                                                      'delimiters': c['dl'], 'names': c['names'], 'exception': c.get('exception'),
-                                                      'site': list(c['site']) if c.get('site') else None})
 
 
 # ---------------------------------------------------------------------------------------------------------------------
@@ -256,7 +279,7 @@ def run(out):
 # string of the instance and prints events, attributes and the three answers at every position; they are compared with the code
 
 SCAN_CHARS = {"<", ">", "/", "=", "DQ", "'", "BS", "!", "-", "?", "[", "]", "a", " ", "NL", "{", "}", "*", "#", "."}
-SCAN_FRAGS = {"<a", "<br", "<b>", "</b>", "</a>", ">", "/>", " x=", "DQ", "'", "y", "<!--", "-->", "<script", "</script>", "<style>", "</style>", "</style >",
+SCAN_FRAGS = {"<a", "<br", "<b>", "</b>", "</a>", ">", "/>", " x=", "DQ", "'", "y", "<!--", "-->", "<script", "</script>", "<style>", "</style>", "</style >", "</STYLE>",
               " ", " type=", "text/x", "<![CDATA[", "]]>", "<?", "?>", "{", "}", "BS", "/", "<", "=", "NL", "(", ")", "[", "]", "*n", "#r", "a:b-c.d_"}
 
 
